@@ -68,6 +68,18 @@ def generate(rng, tier, focus):
                 p = scen.rand_chain(rng, p, 1)
             acts = [sub(0, p, (i, ["push", 0, n(rng.choice([5, 6]))]))] + [["push", 0, n(rng.choice([1, 2, 3]))] for _ in range(rng.randrange(1, 4))] + [["push", 0, C]]
             cases.append((scn(handles=1, script_=acts), {"k": "feedback-" + nm}))
+    # ... and the same for the operators with several inputs over plain Subjects: the subscriber answers an item by pushing into one of
+    # the operator's inputs (request / response ping-pong over zip, combine_latest, merge, ...): an operator that delivers while it
+    # holds its state lock makes that push wait for its own thread
+    for _ in range(120 if thorough else 24):
+        nm = rng.choice(["zip", "zip", "combine_latest", "merge", "sequence_equal", "sample", "take_until", "skip_until", "amb", "switch_on_next"])
+        p = scen.multi_op(rng, nm, ["hot", 0], [["hot", 1]])
+        i = rng.randrange(0, 2)
+        acts = [sub(0, p, (i, ["emit", rng.randrange(2), n(rng.choice([5, 6]))]))]
+        for _k in range(rng.randrange(2, 6)):
+            acts.append(["emit", rng.randrange(2), n(rng.choice([1, 2, 3]))])
+        acts += [["emit", 0, C], ["emit", 1, C]]
+        cases.append((scn(subjects=[["subject"], ["subject"]], handles=1, script_=acts), {"k": "feedback-multi"}))
     # an unbounded synchronous producer shared through ref_count / replay below an operator whose subscription has already ended when it
     # gets to subscribe it: the producer must not be started (nobody could ever stop it)
     for _ in range(20 if thorough else 6):
@@ -94,6 +106,8 @@ def generate(rng, tier, focus):
                     p = scen.rand_chain(rng, p, 1, names=["map", "filter", "scan", "tap", "distinct_until_changed", "skip"])
                     if "filter" in sx.dumps(p) or "distinct_until_changed" in sx.dumps(p):
                         p = srcp       # (an operator that may drop every item of a constant stream spins by design)
+                    if cut[0] == "contains" and ("map" in sx.dumps(p) or "scan" in sx.dumps(p)):
+                        p = srcp       # (contains(v) over a stream whose values were changed never finds v: spins by design)
                 if cut[0] == "take_until":
                     q = ["op", "take_until", [], p, ["just", 1]]
                 elif cut[0] == "amb":
